@@ -110,6 +110,16 @@ CHECKS = {
              'Lark and inflect, which are not modelled: it is exercised by ~950 paraphrases per quick run (single substitutions of every class and '
              'combinations, plus the auxiliary x article grid of the COPULA terminal) compared byte for byte, not proved.',
         design='DESIGN.md §6 C09'),
+    'C17': dict(
+        technique='Lean 4 proof about a one-pass scope checker and line arithmetic + fault-injection correspondence on the real compiler',
+        text='Lean theorems: the one-pass declared-before-use checker never accepts a specification that contains a faulty use and reports the '
+             'first faulty sentence with its fault (for all specifications); per-class lemmas (undeclared concept, missing attribute, unknown '
+             'label, double cardinality); padding made of complete lines shifts the cited line by exactly the number of lines, for every text.',
+        note='Trusted: Lean kernel; the fault-injection harness (160 faulty specifications per quick run, 9 fault classes x positions x paddings x '
+             'line breaks; the skeleton of each generated sentence is known by construction); Lark\'s position propagation. Genuine defects '
+             '(silently ignored / line-less faults) were repaired by fix: commit 0f0a5e3. Partial: that the real transformer performs exactly the '
+             'lookups of the model on every sentence form is checked by injection, not proved.',
+        design='DESIGN.md §6 C17'),
 }
 
 NOT_YET = {}
